@@ -434,3 +434,13 @@ Example chain_4 : fixup (VStr [66; 97; 110; 97; 110; 97]) LtE (VBool true) = Ok 
 Proof. vm_compute. reflexivity. Qed.
 Example eq_mixed : fixup (VInt 2) Eq (VFloat (4 # 2)) = Ok (VBool true). Proof. vm_compute. reflexivity. Qed.
 Example eq_case : fixup (VStr [97; 98]) Eq (VStr [65; 66]) = Ok (VBool true). Proof. vm_compute. reflexivity. Qed.
+(* antisymmetry is not vacuous: 2 <= 2.0 and 2.0 <= 2, "ab" <= "AB" and "AB" <= "ab" *)
+Example anti_1 : fixup (VInt 2) LtE (VFloat (4 # 2)) = Ok (VBool true)
+                 /\ fixup (VFloat (4 # 2)) LtE (VInt 2) = Ok (VBool true).
+Proof. vm_compute. split; reflexivity. Qed.
+Example anti_2 : fixup (VStr [97; 98]) LtE (VStr [65; 66]) = Ok (VBool true)
+                 /\ fixup (VStr [65; 66]) LtE (VStr [97; 98]) = Ok (VBool true).
+Proof. vm_compute. split; reflexivity. Qed.
+Example lt_chain : fixup (VInt 3) Lt (VStr [97]) = Ok (VBool true)
+                   /\ fixup (VStr [97]) Lt (VBool false) = Ok (VBool true).
+Proof. vm_compute. split; reflexivity. Qed.
